@@ -335,6 +335,100 @@ Proof.
 Qed.
 
 (* ---------- T1: the phase moves only along the transition relation ---------- *)
+(* ---------- the requeue budget (handleJobError): what a processed request is, error path included ---------- *)
+(* the only execution that fails AFTER a status write: the first sync of a job (initJobStatus wrote) *)
+Lemma execute_err_wrote : forall w a r F w',
+  execute w a r F = (w', true, true) ->
+  st_phase (v_st w) = PhNone /\ w_st w' = init_status (v_spec w) (v_st w) /\ v_st w' = w_st w'.
+Proof.
+  intros w a r F w' H. unfold execute in H.
+  destruct (exec (st_phase (v_st w)) a) as [[|rt|] u].
+  - unfold sync_job, sync_job_gen in H.
+    destruct (c_vdel (v_ctl w)); [discriminate|].
+    destruct (c_queue (v_ctl w)); cbn [negb] in H; [|discriminate].
+    destruct (phase_beq (st_phase (v_st w)) PhNone) eqn:Hp; cbn [andb] in H.
+    + apply internal_phase_dec_bl in Hp.
+      destruct (fails_status F 0); [discriminate|]. cbv zeta in H.
+      repeat match type of H with context [if ?c then _ else _] => destruct c end;
+        inversion H; subst; cbn [leak set_wpods v_st w_st v_spec]; autorewrite with proj; cbn; auto.
+    + cbv zeta in H.
+      repeat match type of H with context [if ?c then _ else _] => destruct c end; discriminate.
+  - unfold kill_pods, kill_pods_gen in H. destruct (c_vdel (v_ctl w)); [discriminate|].
+    destruct (kill_select _ _ _ _ _) as [kill term0]. destruct (any_fault F kill); [discriminate|].
+    destruct (fails_status F 0); [discriminate|]. destruct (v_pg w); discriminate.
+  - unfold kill_pods, kill_pods_gen in H. destruct (c_vdel (v_ctl w)); [discriminate|].
+    destruct (target_of a r) as [t|t p|]; try discriminate;
+      destruct (kill_select _ _ _ _ _) as [kill term0]; destruct (any_fault F kill); try discriminate;
+      destruct (fails_status F 0); discriminate.
+Qed.
+
+(* TerminateJob is a kill in every state, and a kill that wrote its status did not fail *)
+Lemma exec_terminate_kill : forall p, exists rt u, exec p ATerminate = (KKill rt, u).
+Proof. destruct p; cbn; eauto. Qed.
+
+Lemma execute_terminate_wrote : forall w r F w' e,
+  execute w ATerminate r F = (w', e, true) -> e = false.
+Proof.
+  intros w r F w' e H. unfold execute in H.
+  destruct (exec_terminate_kill (st_phase (v_st w))) as (rt & u & E). rewrite E in H.
+  unfold kill_pods, kill_pods_gen in H. destruct (c_vdel (v_ctl w)); [discriminate|].
+  destruct (kill_select _ _ _ _ _) as [kill term0]. destruct (any_fault F kill); [discriminate|].
+  destruct (fails_status F 0); [discriminate|]. destruct (v_pg w); inversion H; reflexivity.
+Qed.
+
+Lemma step_req_failed : forall w r F w1 wr,
+  step_req w r F = (w1, true, wr) ->
+  execute (with_delays w (clean_pod_delay (c_delay (v_ctl w)) r)) (apply_policies (v_spec w) (v_st w) r) r F = (w1, true, wr).
+Proof.
+  intros w r F w1 wr H. unfold step_req in H. unfold apply_policies.
+  set (w0 := with_delays w (clean_pod_delay (c_delay (v_ctl w)) r)) in *.
+  change (v_spec w0) with (v_spec w) in H. change (v_st w0) with (v_st w) in H.
+  destruct (c_job (v_ctl w0)); cbn [negb] in H; [|discriminate].
+  destruct (apply_policies_d (v_spec w) (v_st w) r) as [a delayed]. cbn [fst].
+  destruct delayed; [discriminate|].
+  destruct (execute w0 a r F) as [[w1' e1] wr1].
+  destruct e1; cbn [negb andb] in H; [exact H|].
+  destruct (negb (is_internal_action a)); discriminate.
+Qed.
+
+Lemma step_req_err_wrote : forall w r F w1,
+  step_req w r F = (w1, true, true) ->
+  st_phase (v_st w) = PhNone /\ w_st w1 = init_status (v_spec w) (v_st w) /\ v_st w1 = w_st w1.
+Proof. intros w r F w1 H. apply step_req_failed in H. apply execute_err_wrote in H. exact H. Qed.
+
+(* a processed request: either processNextReq without a give-up (the requeue counters aside), or a
+   failed Execute followed by TerminateJob executed by the state object built before it *)
+Inductive reqb_result (w : world) (r : req) (F : list fault) (w' : world) (e wr : bool) : Prop :=
+| RB_plain : forall w1 q,
+    step_req w r F = (w1, e, wr) -> w' = set_rq w1 q -> reqb_result w r F w' e wr
+| RB_giveup : forall w1 wr1 w2 e2 wr2 q,
+    step_req w r F = (w1, true, wr1) ->
+    execute (giveup_world w w1 wr1 (apply_policies (v_spec w) (v_st w) r) r F) ATerminate r (giveup_faults F) = (w2, e2, wr2) ->
+    w' = set_rq (with_vpods (if wr1 && negb wr2 then keep_view w1 w2 else w2) (v_pods w1)) q ->
+    e = true -> wr = wr1 || wr2 -> reqb_result w r F w' e wr.
+
+Lemma step_reqb_cases : forall w r F w' e wr,
+  step_reqb w r F = (w', e, wr) -> reqb_result w r F w' e wr.
+Proof.
+  intros w r F w' e wr H. unfold step_reqb in H.
+  destruct (step_req w r F) as [[w1 e1] wr1] eqn:Hs.
+  destruct e1; cbn [negb] in H.
+  - destruct ((q_max (c_rq (v_ctl w)) =? -1) || (rq_get r (q_cnt (c_rq (v_ctl w))) <? q_max (c_rq (v_ctl w)))).
+    + inversion H; subst. eapply RB_plain; [exact Hs|reflexivity].
+    + unfold give_up in H.
+      destruct (execute _ ATerminate r (giveup_faults F)) as [[w2 e2] wr2] eqn:Hx.
+      inversion H; subst. eapply RB_giveup; eauto.
+  - inversion H; subst. eapply RB_plain; [exact Hs|reflexivity].
+Qed.
+
+(* the bookkeeping worlds differ from the plain ones only in what the status theorems never read *)
+Lemma outcome_set_rq : forall sp k u w w' e wr q,
+  outcome sp k u w w' e wr -> outcome sp k u w (set_rq w' q) e wr.
+Proof. intros sp k u w w' e wr q O. destruct O. constructor; cbn in *; assumption. Qed.
+Lemma outcome_vpods_l : forall sp k u w w' e wr l,
+  outcome sp k u (with_vpods w l) w' e wr -> outcome sp k u w w' e wr.
+Proof. intros sp k u w w' e wr l O. destruct O. constructor; cbn in *; assumption. Qed.
+
 Lemma phase_transition_allowed_gen : forall w a w' e wr,
   acted w a w' e wr -> In (st_phase (v_st w')) (allowed (st_phase (v_st w))).
 Proof.
@@ -666,9 +760,25 @@ Lemma final_step : forall w o w' e wr,
   incl (pod_ids (w_pods w')) (pod_ids (w_pods w)).
 Proof.
   intros w o w' e wr Hinv Hsj H. pose proof Hinv as [Hf He]. destruct o; cbn in H.
-  - (* a request *)
-    destruct (acted_final _ _ _ _ _ Hinv (step_req_outcome _ _ _ _ _ _ H)) as [A B].
-    repeat split; try apply A; auto. rewrite (step_req_final_ids _ _ _ _ _ _ Hf H). apply incl_refl.
+  - (* a request, with its error path *)
+    destruct (step_reqb_cases _ _ _ _ _ _ H) as [w1 q Hs ->|w1 wr1 w2 e2 wr2 q Hs Hx -> _ _].
+    + destruct (acted_final _ _ _ _ _ Hinv (step_req_outcome _ _ _ _ _ _ Hs)) as [A B].
+      unfold final_inv in *. cbn [set_rq v_st w_st w_pods].
+      repeat split; try apply A; auto. rewrite (step_req_final_ids _ _ _ _ _ _ Hf Hs). apply incl_refl.
+    + (* the controller gives up: TerminateJob through the state of the final phase changes nothing *)
+      destruct wr1.
+      { destruct (step_req_err_wrote _ _ _ _ Hs) as [Hn _]. rewrite Hn in Hf. discriminate. }
+      destruct (acted_final _ _ _ _ _ Hinv (step_req_outcome _ _ _ _ _ _ Hs)) as [A B].
+      pose proof (execute_outcome _ _ _ _ _ _ _ Hx) as O2.
+      assert (Ag : final_inv (giveup_world w w1 false (apply_policies (v_spec w) (v_st w) r) r F)) by exact A.
+      destruct (acted_final _ _ _ _ _ Ag O2) as [A2 B2].
+      assert (Hf1 : is_final (st_phase (v_st (giveup_world w w1 false (apply_policies (v_spec w) (v_st w) r) r F))) = true)
+        by apply A.
+      pose proof (execute_final_ids _ _ _ _ _ _ _ Hf1 Hx) as I2.
+      cbn [andb]. unfold final_inv in *. cbn [set_rq with_vpods v_st w_st w_pods].
+      cbn [giveup_world with_vpods v_st w_st w_pods] in B2, I2.
+      repeat split; try apply A2; try congruence.
+      rewrite I2, (step_req_final_ids _ _ _ _ _ _ Hf Hs). apply incl_refl.
   - inversion H; subst; clear H. cbn. repeat split; auto.
     rewrite pod_ids_update; [apply incl_refl|intros p; split; reflexivity].
   - inversion H; subst; clear H. cbn. repeat split; auto. rewrite pod_ids_api_delete. apply incl_refl.
@@ -713,13 +823,38 @@ Qed.
 (* ---------- T6: the version on the API server never goes back, over every history ---------- *)
 Definition ver_inv (w : world) : Prop := st_version (w_st w) <= st_version (v_st w).
 
+Lemma acted_ver : forall w a w' e wr,
+  st_version (w_st w) <= st_version (v_st w) -> acted w a w' e wr ->
+  st_version (w_st w') <= st_version (v_st w') /\ st_version (w_st w) <= st_version (w_st w').
+Proof.
+  intros w a w' e wr Hi O. pose proof (version_step_gen _ _ _ _ _ O) as V. unfold acted in O.
+  destruct (oc_api _ _ _ _ _ _ _ O) as [E|[E|[_ E]]]; rewrite E; cbn; lia.
+Qed.
+
 Lemma ver_step : forall w o w' e wr,
   ver_inv w -> same_job o -> step w o = (w', e, wr) -> ver_inv w' /\ st_version (w_st w) <= st_version (w_st w').
 Proof.
   intros w o w' e wr Hi Hsj H. unfold ver_inv in *. destruct o; cbn in H.
-  - pose proof (step_req_outcome _ _ _ _ _ _ H) as O.
-    pose proof (version_step_gen _ _ _ _ _ O) as V. unfold acted in O.
-    destruct (oc_api _ _ _ _ _ _ _ O) as [E|[E|[_ E]]]; rewrite E; cbn; lia.
+  - destruct (step_reqb_cases _ _ _ _ _ _ H) as [w1 q Hs ->|w1 wr1 w2 e2 wr2 q Hs Hx -> _ _].
+    + exact (acted_ver _ _ _ _ _ Hi (step_req_outcome _ _ _ _ _ _ Hs)).
+    + (* the controller gives up *)
+      destruct (acted_ver _ _ _ _ _ Hi (step_req_outcome _ _ _ _ _ _ Hs)) as [A B].
+      pose proof (execute_outcome _ _ _ _ _ _ _ Hx) as O2.
+      destruct wr1.
+      * destruct (step_req_err_wrote _ _ _ _ Hs) as (Hn & Hw & Hv).
+        assert (Hg : st_version (w_st (giveup_world w w1 true (apply_policies (v_spec w) (v_st w) r) r F)) <=
+                     st_version (v_st (giveup_world w w1 true (apply_policies (v_spec w) (v_st w) r) r F))).
+        { cbn [giveup_world with_vpods stale_view v_st w_st]. rewrite Hw. cbn. lia. }
+        destruct (acted_ver _ _ _ _ _ Hg O2) as [A2 B2].
+        cbn [giveup_world with_vpods stale_view v_st w_st] in B2.
+        destruct wr2; cbn [andb negb set_rq with_vpods keep_view v_st w_st].
+        -- split; [exact A2|]. rewrite Hw in B2. cbn in B2. lia.
+        -- unfold acted in O2. rewrite (oc_silent _ _ _ _ _ _ _ O2 eq_refl).
+           cbn [giveup_world with_vpods stale_view v_st w_st]. split; lia.
+      * assert (Ag : st_version (w_st (giveup_world w w1 false (apply_policies (v_spec w) (v_st w) r) r F)) <=
+                     st_version (v_st (giveup_world w w1 false (apply_policies (v_spec w) (v_st w) r) r F))) by exact A.
+        destruct (acted_ver _ _ _ _ _ Ag O2) as [A2 B2].
+        cbn [andb set_rq with_vpods v_st w_st]. cbn [giveup_world with_vpods v_st w_st] in B2. split; [exact A2|lia].
   - inversion H; subst; cbn; lia.
   - inversion H; subst; cbn; lia.
   - inversion H; subst; cbn; lia.
@@ -971,7 +1106,29 @@ Lemma step_api_phase : forall w o w' e wr,
 Proof.
   intros w o w' e wr Hag Hsj H. destruct o; cbn in H;
     try (inversion H; subst; clear H; unfold phase_agree in *; cbn; split; [assumption|apply allowed_refl]).
-  - exact (acted_api_phase _ _ _ _ _ Hag (step_req_outcome _ _ _ _ _ _ H)).
+  - destruct (step_reqb_cases _ _ _ _ _ _ H) as [w1 q Hs ->|w1 wr1 w2 e2 wr2 q Hs Hx -> _ _].
+    + exact (acted_api_phase _ _ _ _ _ Hag (step_req_outcome _ _ _ _ _ _ Hs)).
+    + (* the controller gives up: TerminateJob through the state object built before the failed Execute *)
+      pose proof (step_req_outcome _ _ _ _ _ _ Hs) as O1.
+      destruct (acted_api_phase _ _ _ _ _ Hag O1) as [A1 B1].
+      pose proof (execute_outcome _ _ _ _ _ _ _ Hx) as O2.
+      destruct wr1.
+      * destruct (step_req_err_wrote _ _ _ _ Hs) as (Hn & Hw & Hv).
+        assert (Hn' : st_phase (w_st w) = PhNone) by (unfold phase_agree in Hag; congruence).
+        destruct wr2; cbn [andb negb]; unfold phase_agree; cbn [set_rq with_vpods keep_view v_st w_st].
+        -- pose proof (execute_terminate_wrote _ _ _ _ _ Hx) as He2. subst e2.
+           pose proof (phase_transition_allowed_gen _ _ _ _ _ O2) as T.
+           cbn [giveup_world with_vpods stale_view v_st] in T. rewrite Hn in T.
+           unfold acted in O2. destruct (oc_written _ _ _ _ _ _ _ O2 eq_refl eq_refl) as [_ E].
+           rewrite E, Hn'. split; [reflexivity|exact T].
+        -- unfold acted in O2. rewrite (oc_silent _ _ _ _ _ _ _ O2 eq_refl).
+           cbn [giveup_world with_vpods stale_view v_st w_st]. split; [congruence|].
+           rewrite Hw, Hn'. cbn. tauto.
+      * assert (Ag : phase_agree (giveup_world w w1 false (apply_policies (v_spec w) (v_st w) r) r F)) by exact A1.
+        destruct (acted_api_phase _ _ _ _ _ Ag O2) as [A2 B2].
+        cbn [giveup_world with_vpods w_st] in B2.
+        unfold acted in O1. rewrite (oc_silent _ _ _ _ _ _ _ O1 eq_refl) in B2.
+        cbn [andb]. split; [exact A2|exact B2].
   - inversion H; subst; clear H. destruct (w_pg w); unfold phase_agree in *; cbn; split; auto using allowed_refl.
   - destruct (c_job (v_ctl w) && negb (c_dirty (v_ctl w))); inversion H; subst; clear H;
       unfold phase_agree in *; cbn; split; auto using allowed_refl.
@@ -1007,6 +1164,163 @@ Example api_phase_history_nonvacuous :
                 OReq sync_req []; OReq sync_req []] =
   [PhPending; PhPending; PhPending; PhPending; PhPending; PhPending; PhRunning; PhCompleted].
 Proof. split; [reflexivity|]. split; vm_compute; reflexivity. Qed.
+
+(* ---------- the give-up step of handleJobError, per processed request ---------- *)
+(* an Execute that fails without having written leaves the cached phase, retry count and spec alone *)
+Lemma execute_err_silent : forall w a r F w',
+  execute w a r F = (w', true, false) ->
+  st_phase (v_st w') = st_phase (v_st w) /\ st_retry (v_st w') = st_retry (v_st w) /\ v_spec w' = v_spec w.
+Proof.
+  intros w a r F w' H. unfold execute in H.
+  destruct (exec (st_phase (v_st w)) a) as [[|rt|] u].
+  - unfold sync_job, sync_job_gen in H.
+    destruct (c_vdel (v_ctl w)); [discriminate|].
+    destruct (c_queue (v_ctl w)); cbn [negb] in H; [|inversion H; auto].
+    destruct (phase_beq (st_phase (v_st w)) PhNone) eqn:Hp; cbn [andb] in H.
+    + destruct (fails_status F 0); [inversion H; auto|]. cbv zeta in H.
+      repeat match type of H with context [if ?c then _ else _] => destruct c end; discriminate.
+    + cbv zeta in H.
+      repeat match type of H with context [if ?c then _ else _] => destruct c end;
+        inversion H; subst; cbn [leak set_wpods v_st v_spec]; autorewrite with proj; auto.
+  - unfold kill_pods, kill_pods_gen in H. destruct (c_vdel (v_ctl w)); [discriminate|].
+    destruct (kill_select _ _ _ _ _) as [kill term0]. destruct (any_fault F kill); [inversion H; subst; cbn; auto|].
+    destruct (fails_status F 0); [inversion H; subst; cbn; auto|]. destruct (v_pg w); discriminate.
+  - unfold kill_pods, kill_pods_gen in H. destruct (c_vdel (v_ctl w)); [discriminate|].
+    destruct (target_of a r) as [t|t p|]; try discriminate;
+      destruct (kill_select _ _ _ _ _) as [kill term0]; destruct (any_fault F kill); try (inversion H; subst; cbn; auto; fail);
+      destruct (fails_status F 0); try discriminate; inversion H; subst; cbn; auto.
+Qed.
+
+(* where the give-up execution starts and where the step ends: the state object holds the phase, the retry
+   count and the spec the cache showed before the failed Execute; the cache ends with what TerminateJob
+   left, or -- first sync of a job, initJobStatus written, give-up failed too -- with the Pending status *)
+Lemma giveup_shape : forall w r F w1 wr1 w2 e2 wr2,
+  step_req w r F = (w1, true, wr1) ->
+  let wg := giveup_world w w1 wr1 (apply_policies (v_spec w) (v_st w) r) r F in
+  execute wg ATerminate r (giveup_faults F) = (w2, e2, wr2) ->
+  let w3 := if wr1 && negb wr2 then keep_view w1 w2 else w2 in
+  st_phase (v_st wg) = st_phase (v_st w) /\ st_retry (v_st wg) = st_retry (v_st w) /\ v_spec wg = v_spec w /\
+  acted wg ATerminate w2 e2 wr2 /\
+  (v_st w3 = v_st w2 \/
+   (st_phase (v_st w) = PhNone /\ st_phase (v_st w3) = PhPending /\ st_retry (v_st w3) = st_retry (v_st w))).
+Proof.
+  intros w r F w1 wr1 w2 e2 wr2 Hs wg Hx w3. subst wg w3.
+  pose proof (execute_outcome _ _ _ _ _ _ _ Hx) as O2.
+  destruct wr1.
+  - destruct (step_req_err_wrote _ _ _ _ Hs) as (Hn & Hw & Hv).
+    cbn [giveup_world with_vpods stale_view v_st v_spec].
+    split; [reflexivity|]. split; [reflexivity|]. split; [reflexivity|]. split; [exact O2|].
+    destruct wr2; [left; reflexivity|right].
+    change (v_st (if true && negb false then keep_view w1 w2 else w2)) with (v_st w1).
+    rewrite Hv, Hw. cbn. auto.
+  - apply step_req_failed in Hs. apply execute_err_silent in Hs. cbn in Hs. destruct Hs as (A & B & C).
+    cbn [giveup_world with_vpods v_st v_spec andb].
+    split; [exact A|]. split; [exact B|]. split; [exact C|]. split; [exact O2|]. left; reflexivity.
+Qed.
+
+Theorem reqb_phase_transition_allowed : forall w r F w' e wr,
+  step_reqb w r F = (w', e, wr) -> In (st_phase (v_st w')) (allowed (st_phase (v_st w))).
+Proof.
+  intros w r F w' e wr H.
+  destruct (step_reqb_cases _ _ _ _ _ _ H) as [w1 q Hs ->|w1 wr1 w2 e2 wr2 q Hs Hx -> _ _].
+  - exact (phase_transition_allowed _ _ _ _ _ _ Hs).
+  - destruct (giveup_shape _ _ _ _ _ _ _ _ Hs Hx) as (A & B & C & O2 & [E|(Hn & Hp & Hr)]);
+      cbn [set_rq with_vpods v_st].
+    + rewrite E, <- A. exact (phase_transition_allowed_gen _ _ _ _ _ O2).
+    + rewrite Hp, Hn. cbn. tauto.
+Qed.
+
+Theorem reqb_aborted_left_only_by_resume : forall w r F w' e wr,
+  step_reqb w r F = (w', e, wr) ->
+  st_phase (v_st w) = PhAborted -> st_phase (v_st w') <> PhAborted ->
+  apply_policies (v_spec w) (v_st w) r = AResume /\ st_phase (v_st w') = PhRestarting.
+Proof.
+  intros w r F w' e wr H Hab Hne.
+  destruct (step_reqb_cases _ _ _ _ _ _ H) as [w1 q Hs ->|w1 wr1 w2 e2 wr2 q Hs Hx -> _ _].
+  - exact (aborted_left_only_by_resume _ _ _ _ _ _ Hs Hab Hne).
+  - (* giving up on a request never takes the job out of Aborted *)
+    exfalso. destruct (giveup_shape _ _ _ _ _ _ _ _ Hs Hx) as (A & B & C & O2 & [E|(Hn & _)]);
+      cbn [set_rq with_vpods v_st] in Hne; [|congruence].
+    rewrite E in Hne. rewrite Hab in A.
+    destruct (aborted_left_only_by_resume_gen _ _ _ _ _ O2 A Hne) as [X _]. discriminate.
+Qed.
+
+Theorem reqb_retry_increments_once : forall w r F w' e wr,
+  step_reqb w r F = (w', e, wr) ->
+  let s := v_st w in let s' := v_st w' in
+  (st_retry s' = st_retry s \/
+   (st_retry s' = st_retry s + 1 /\ st_phase s' = PhRestarting /\ st_phase s <> PhRestarting)) /\
+  (st_phase s <> PhRestarting -> st_phase s' = PhRestarting -> st_retry s' = st_retry s + 1).
+Proof.
+  intros w r F w' e wr H.
+  destruct (step_reqb_cases _ _ _ _ _ _ H) as [w1 q Hs ->|w1 wr1 w2 e2 wr2 q Hs Hx -> _ _].
+  - exact (retry_increments_once _ _ _ _ _ _ Hs).
+  - destruct (giveup_shape _ _ _ _ _ _ _ _ Hs Hx) as (A & B & C & O2 & [E|(Hn & Hp & Hr)]);
+      cbv zeta; cbn [set_rq with_vpods v_st].
+    + rewrite E, <- A, <- B. exact (retry_increments_once_gen _ _ _ _ _ O2).
+    + rewrite Hr, Hp. split; [left; reflexivity|discriminate].
+Qed.
+
+Theorem reqb_maxretry_fails : forall w r F w' e wr,
+  step_reqb w r F = (w', e, wr) ->
+  st_phase (v_st w) = PhRestarting -> s_maxretry (v_spec w) <= st_retry (v_st w) ->
+  st_phase (v_st w') = PhRestarting \/ st_phase (v_st w') = PhFailed.
+Proof.
+  intros w r F w' e wr H Hre Hmax.
+  destruct (step_reqb_cases _ _ _ _ _ _ H) as [w1 q Hs ->|w1 wr1 w2 e2 wr2 q Hs Hx -> _ _].
+  - exact (proj1 (maxretry_fails _ _ _ _ _ _ Hs Hre Hmax)).
+  - destruct (giveup_shape _ _ _ _ _ _ _ _ Hs Hx) as (A & B & C & O2 & [E|(Hn & _)]);
+      cbn [set_rq with_vpods v_st]; [|congruence].
+    rewrite E. rewrite Hre in A. rewrite <- C, <- B in Hmax.
+    exact (proj1 (maxretry_fails_gen _ _ _ _ _ O2 A Hmax)).
+Qed.
+
+(* the step as the history theorems see it (C05_api_phase_history, C05_final_phases_absorbing and
+   C05_version_monotone are proved over [step], whose request case is [step_reqb]) *)
+Theorem reqb_api_phase : forall w r F w' e wr,
+  phase_agree w -> step_reqb w r F = (w', e, wr) ->
+  phase_agree w' /\ In (st_phase (w_st w')) (allowed (st_phase (w_st w))).
+Proof. intros w r F w' e wr Hag H. exact (step_api_phase w (OReq r F) w' e wr Hag I H). Qed.
+
+Theorem reqb_final : forall w r F w' e wr,
+  is_final (st_phase (v_st w)) = true -> st_phase (w_st w) = st_phase (v_st w) ->
+  step_reqb w r F = (w', e, wr) ->
+  st_phase (v_st w') = st_phase (v_st w) /\ st_phase (w_st w') = st_phase (v_st w) /\
+  incl (pod_ids (w_pods w')) (pod_ids (w_pods w)).
+Proof.
+  intros w r F w' e wr Hf He H.
+  destruct (final_step w (OReq r F) w' e wr (conj Hf He) I H) as ([_ He'] & Hp & Hi).
+  repeat split; auto. congruence.
+Qed.
+
+(* non-vacuity: maxRequeueNum = 0, a Completed job that still owns a Running pod whose deletion is
+   refused: the controller gives up at once, TerminateJob through finishedState kills the pod (the
+   give-up execution meets no fault) and the job stays Completed; the same for an Aborted job *)
+Example giveup_example :
+  let sp := mkSpec [mkTask 1 1 (Some 1) [] None] 1 None 3 [] in
+  let st ph := mkStatus ph 0 0 1 (mkC 0 1 0 0 0) 0 [(1%positive, mkC 0 1 0 0 0)] false false in
+  let w ph := init_world_m 0 true sp (st ph) [mkPod 1 0 PRunning false false] (Some PgRunning) in
+  let r := mkReq EOutOfSync None None None 0 0 1 in
+  forall ph, In ph [PhCompleted; PhAborted] ->
+  exists w', step_reqb (w ph) r [FDelete 1 0] = (w', true, true) /\ q_gave (c_rq (v_ctl w')) = true /\
+             st_phase (w_st w') = ph /\ st_phase (v_st w') = ph /\
+             w_pods w' = [mkPod 1 0 PRunning true true].
+Proof.
+  cbv zeta. intros ph [<-|[<-|[]]]; eexists; (split; [vm_compute; reflexivity|]); vm_compute; auto.
+Qed.
+
+(* OBSERVATION (real controller, corpus/C05/regress-seeded-r5.jsonl "regress-giveup-consumed-view"): giving up
+   on a SYNC.  A Running job with two Running pods, fresh views, maxRequeueNum = 0, the sync's status
+   update refused: TerminateJob runs on the JobInfo clone the failed syncJob emptied, so it deletes no
+   pod, deletes the PodGroup and writes phase Terminating with every counter 0 *)
+Example giveup_consumed_view_example :
+  let sp := mkSpec [mkTask 1 2 (Some 2) [] None] 2 None 3 [] in
+  let pods := [mkPod 1 0 PRunning false false; mkPod 1 1 PRunning false false] in
+  let w := init_world_m 0 true sp (mkStatus PhRunning 0 0 2 (mkC 0 1 0 0 0) 0 [] false false) pods (Some PgRunning) in
+  exists w', step_reqb w (mkReq EOutOfSync None None None 0 0 1) [FStatus 0] = (w', true, true) /\
+             q_gave (c_rq (v_ctl w')) = true /\ st_phase (w_st w') = PhTerminating /\
+             st_cnt (w_st w') = c0 /\ st_term (w_st w') = 0 /\ w_pods w' = pods /\ w_pg w' = None.
+Proof. cbv zeta. eexists. split; [vm_compute; reflexivity|]. vm_compute. auto 10. Qed.
 
 (* ---------- [allowed] against the only DOCUMENTED transition table of the repository ----------
    docs/design/job-api.md 171-177 gives a table over the five stable phases of the original API (Pending,
